@@ -955,7 +955,7 @@ func TestVerifWireMsg(t *testing.T) {
 			}
 			emit("no-message", ops)
 		}
-		n := verifN(4000, 80000)
+		n := verifN(4000, 40000)
 		for c := 0; c < n; c++ {
 			var ops []string
 			for i := 0; i < 4; i++ {
@@ -1038,7 +1038,7 @@ func TestVerifWireIds(t *testing.T) {
 			sweep = append(sweep, "idecho "+jBig(new(big.Int).Neg(new(big.Int).Add(max, big.NewInt(d))).String()).tok())
 		}
 		emit("sweep", sweep)
-		n := verifN(8000, 150000)
+		n := verifN(8000, 60000)
 		for c := 0; c < n; c++ {
 			var ops []string
 			for i := 0; i < 8; i++ {
